@@ -222,6 +222,8 @@ def analyse(prop: str, prog: Program, tier: str = "quick"):
     s = Session(prog, prop, tier)
     try:
         mod.check(s)
+        if tier == "thorough" and hasattr(mod, "check_thorough"):
+            mod.check_thorough(s)
     except AnalysisError as e:
         return s, f"ANALYSIS-ERROR {e}"
     except Exception as e:  # noqa: BLE001
